@@ -43,6 +43,23 @@ func canonShapeOnce(s string) string {
 			i = j
 			continue
 		}
+		// a conditional piece of an emission template: ?(not(C)){A}{B} is ?(C){B}{A}
+		if c == '?' && i+1 < len(s) && s[i+1] == '(' {
+			if cl := matchingClose(s, i+1); cl > 0 && cl+1 < len(s) && s[cl+1] == '{' {
+				if c1 := matchingClose(s, cl+1); c1 > 0 && c1+1 < len(s) && s[c1+1] == '{' {
+					if c2 := matchingClose(s, c1+1); c2 > 0 {
+						cnd := strings.TrimSpace(canonShapeOnce(s[i+2 : cl]))
+						a, bb := canonShapeOnce(s[cl+2:c1]), canonShapeOnce(s[c1+2:c2])
+						if strings.HasPrefix(cnd, "not(") && matchingClose(cnd, 3) == len(cnd)-1 {
+							cnd, a, bb = cnd[4:len(cnd)-1], bb, a
+						}
+						b.WriteString("?(" + cnd + "){" + a + "}{" + bb + "}")
+						i = c2 + 1
+						continue
+					}
+				}
+			}
+		}
 		// a record literal T{A: x, B: y}: the fields in alphabetical order (a keyed composite literal; the field
 		// values of a normal form are terms over the threaded state, their order of evaluation is immaterial)
 		if c == '{' && i > 0 && isWordChar(s[i-1]) {
